@@ -6,6 +6,7 @@ import os
 import random
 import time
 import traceback
+from wsx import CredentialRefused
 
 ROOT = os.path.normpath(os.path.join(os.path.dirname(os.path.abspath(__file__)), ".."))
 
@@ -87,6 +88,18 @@ def _worker(args):
     fn, idx, nworkers, tier, seed, extra = args
     try:
         return fn(idx, nworkers, tier, seed, extra)
+    except CredentialRefused as e:
+        # not a harness error: the library refused a credential that is valid by the rule
+        m = Monitor()
+        prop = (getattr(fn, "__module__", "") or "e1").split(".")[-1]
+        try:
+            text = bytes.fromhex(e.f.get("text", "")).decode("ascii", "replace")
+        except ValueError:
+            text = "?"
+        m.ev()
+        m.violation("%s:valid_credential_refused" % prop, "a constructor or conversion of the credential type refused the valid string %r (%s)" % (text, e.f.get("msg")),
+                    {"engine": "wsx", "kind": "raw", "commands": [e.cmd]})
+        return m
     except Exception as e:  # harness error in a worker: inconclusive, never a violation
         m = Monitor()
         m.inconc("worker %d harness error: %s: %s | %s" % (idx, type(e).__name__, e,
